@@ -28,6 +28,11 @@ pub fn spurious(on: bool) {
     with_state(|st, _| st.spurious = on);
 }
 
+/// Server-side socket handles of the in-memory network that are still alive.
+pub fn open_server_handles() -> usize {
+    with_state(|st, _| st.net.open_server_handles())
+}
+
 pub fn note(s: String) {
     with_state(|st, _| st.notes.push(s));
 }
